@@ -41,7 +41,7 @@ def main():
     prop = meta["property"]
     checks = [c for c in a.checks.split(",") if c] or [prop]
     demo_src = open(os.path.join(sd, "demo_test.go")).read()
-    m = re.search(r"(pkg/[\w/]+?)/?[\s(]", demo_src[:1500]) or re.search(r"(pkg/[\w/]+)", meta.get("demo_location", ""))
+    m = re.search(r"((?:pkg|cmd)/[\w/]+?)/?[\s(]", demo_src[:1500]) or re.search(r"((?:pkg|cmd)/[\w/]+)", meta.get("demo_location", ""))
     if not m:
         print("cannot find the demonstration's package directory")
         return 2
